@@ -36,7 +36,7 @@ var metas = map[string]PropMeta{
 		Assumptions: []string{"the kinds of value jsonpointer.Get can return for an analyzer key are *Schema, Schema, *SchemaOrArray, *SchemaOrBool, and the containers of a by-value schema are Definitions, map[string]Schema, []Schema, *SchemaOrArray, SchemaProperties (read from go-openapi/spec)"},
 	},
 	"C06": {
-		Explanation: "ENC-MAPKEY in removeUnusedSinglePass, TERM-PROGRESS, PIPE-ORDER/clearShared and /removeUnused, PIPE-NOREFILL. TERM-PROGRESS/loop (the repeat loop runs exactly while the pass reports progress).",
+		Explanation: "ENC-MAPKEY in removeUnusedSinglePass, TERM-PROGRESS, PIPE-ORDER/clearShared and /removeUnused, PIPE-NOREFILL. TERM-PROGRESS/loop (the repeat loop runs exactly while the pass reports progress). ENC-MAPKEY reads pointers spelled with + and path.Base of a multi-domain local.",
 		NotDecided:  []string{"that the reference list is complete (C11)", "meaning preservation (C01)"},
 		Assumptions: []string{"names contain no '%' (url.PathUnescape is then the inverse of the escaping done by Ref.String)"},
 	},
@@ -76,7 +76,7 @@ var metas = map[string]PropMeta{
 		Assumptions: []string{"a call does not nil-out a field of a value it receives", "function results and parameters of exported functions are not maybe-nil sources (only optional fields of the loaded document are)"},
 	},
 	"C17": {
-		Explanation: "Guard-dominance rules over structural path conditions for every store into the primary reachable from Mixin, structured path enumeration of each reporting merge loop, flow of every helper's collision list into the result, coverage of the sections named in the statement (from write-effect summaries), write set rooted at the primary only, nil-guard dataflow including initPrimary's ensures-summary. GUARD-COMMAOK, EFFECT-SHORTCIRCUIT.",
+		Explanation: "Guard-dominance rules over structural path conditions for every store into the primary reachable from Mixin, structured path enumeration of each reporting merge loop, flow of every helper's collision list into the result, coverage of the sections named in the statement (from write-effect summaries), write set rooted at the primary only, nil-guard dataflow including initPrimary's ensures-summary. GUARD-COMMAOK, EFFECT-SHORTCIRCUIT. GUARD-FILLEMPTY/reached (no fill is conditioned on another part of either document).",
 		NotDecided:  []string{"reflect.DeepEqual on security requirements", "exact collision count for inputs where one key collides in several helpers at once beyond one entry per colliding key per helper"},
 		Assumptions: []string{"range over a slice visits mixins in order (language semantics)", "a call does not nil-out a field of a value it receives"},
 	},
